@@ -228,7 +228,7 @@ Definition gateway (G : generation) (fschema : schema) (W : world) (op : operati
   let '(ss, perm_errs) := match P with
                           | Some p => let '(o', e) := filter_operation p {| o_kind := o_kind op; o_name := o_name op; o_vardefs := o_vardefs op; o_sel := ss0 |} in (o_sel o', e)
                           | None => (ss0, []) end in
-  let perrs := map (fun _ => {| ge_kind := EPerm; ge_path := []; ge_service := false |}) perm_errs in
+  let perrs := map (fun m => {| ge_kind := EPerm; ge_path := [PName m]; ge_service := false |}) perm_errs in
   let root := match o_kind op with OMutation => "Mutation" | _ => "Query" end in
   let pc := {| pc_schema := fschema; pc_locations := g_locations G; pc_is_boundary := g_is_boundary G; pc_services := g_services G |} in
   let err_only := fun (steps : list step) (rqs : list request) =>
